@@ -57,12 +57,44 @@ def parse_unit_name(name):
     return (exp["MILLIMETER"], exp["SECOND"])
 
 
+def _is_exp_ty(t):
+    return t.get("k") == "prim" and t.get("name") in ("i8", "i16", "i32", "i64", "isize")
+
+
 def unit_value(sim, prog, m, s):
+    """Unit with the two exponents m, s - the first and second integer leaf of the type, wherever a maintainer keeps them
+    (two fields today; private newtypes or a private sub-struct are looked through: layout)"""
+    import layout
     uty = unit_ty(prog)
     fs = sim.adt_fields(uty)
     if not fs:
         return Struct(uty, ())
-    return Struct(uty, (Const(m, prim("i8")), Const(s, prim("i8"))))
+    todo = [m, s]
+
+    def leaf(dotted, t):
+        if _is_exp_ty(t) and todo:
+            x = todo.pop(0)
+            return x if isinstance(x, V) else Const(x, t)
+        if is_adt(t, "PhantomData"):
+            return Struct(t, ())
+        return None
+    v = layout.build_symbolic(sim, uty, leaf, prefix="unit")
+    if todo:
+        raise AnchorMissing("two integer exponents of Unit")
+    return v
+
+
+def unit_leaf_names(sim, prog):
+    """dotted names of the two exponent leaves of Unit (e.g. millimeter_exp, second_exp - or millimeter_exp.0, ...)"""
+    import layout
+    out = []
+
+    def leaf(dotted, t):
+        if _is_exp_ty(t):
+            out.append(dotted)
+        return None
+    layout.build_symbolic(sim, unit_ty(prog), leaf, prefix="unit")
+    return out[:2]
 
 
 def unit_ty(prog):
@@ -77,9 +109,12 @@ def quantity_ty(prog):
 
 def unit_exps(sim, st, v):
     """(mm, s) abstract ints of a Unit value (None if units are compiled out)."""
+    import layout
     v = sim.final_value(st, v)
-    if isinstance(v, Struct) and len(v.fields) == 2:
-        return v.fields[0], v.fields[1]
+    if isinstance(v, Struct) and v.fields:
+        ls = [x for _n, x in layout.value_leaves(sim, v) if not (isinstance(x, Struct) and not x.fields) and not isinstance(x, Opaque)]
+        if len(ls) == 2:
+            return ls[0], ls[1]
     return None
 
 
